@@ -143,8 +143,8 @@ def _prefix():
 
 
 @st.composite
-def history(draw, focus='general', max_ops=24):
-    u = draw(st.integers(5, 10))
+def history(draw, focus='general', max_ops=24, large=False):
+    u = draw(st.integers(16, 28)) if large else draw(st.integers(5, 10))
     if focus == 'collide':
         pool = list(range(1, max(3, u // 2) + 1))
     else:
@@ -152,7 +152,21 @@ def history(draw, focus='general', max_ops=24):
     ids = draw(st.lists(st.sampled_from(pool), min_size=u, max_size=u))
     strids = draw(st.integers(0, 4)) == 0        # ids are opaque: one universe in five uses strings
     pre = draw(_prefix())
-    ops = draw(st.lists(op_strategy(focus, sorted(set(pool))), min_size=1, max_size=max_ops))
+    if large:
+        # populate: most tasks attached below the previous one or an earlier one (depth up to ~10), a few roots in WBSs
+        pre = []
+        for k in range(u - 3):
+            owner = draw(st.sampled_from([k - 1, k - 1, draw(st.integers(0, max(0, k - 1))), -1 - draw(st.integers(0, NW - 1))])) if k else -1
+            pre.append(('append', owner, k, 'L'))
+        for _ in range(draw(st.integers(2, 8))):
+            pre.append((draw(st.sampled_from(['pred_append', 'succ_append'])), draw(st.integers(0, u - 1)), draw(st.integers(0, u - 1)), 'L'))
+    ops = draw(st.lists(op_strategy(focus, sorted(set(pool))), min_size=(12 if large else 1), max_size=max_ops * (3 if large else 1)))
+    if large:
+        # task indexes are drawn from 0..11 and taken modulo the universe: spread them over the larger universe
+        k = draw(st.integers(1, 5))
+        def spread(o):
+            return [((x * k + i) % u if isinstance(x, int) and not isinstance(x, bool) and x >= 0 and j > 0 and o[0] not in ('insert',) else x) for j, (i, x) in enumerate(zip(range(len(o)), o))]
+        ops = [tuple(spread(list(o))) for o in ops]
     case = {'ids': ids, 'nw': NW, 'held': draw(st.sampled_from([0, 0, 1, 2])), 'ops': [list(o) for o in pre] + [list(o) for o in ops]}
     if strids:
         f = lambda i: 'k%s' % i
